@@ -33,6 +33,23 @@ def build(env, sc):
     raise ValueError(kind)
 
 
+def waiting_total(s):
+    """Packets not yet taken out of the scheduler's queues (the sub-queue stores are public attributes); -1 if this
+    implementation does not expose them.  Pins where inside an instant the scheduler picked its next packet."""
+    try:
+        if hasattr(s, "head_of_line"):
+            # DRR takes the head packet out of its sub-queue to look at its size and parks it when the credit does not
+            # cover it: the queue length says nothing about which packet it has committed to
+            return -1
+        if hasattr(s, "stores"):
+            return sum(len(st.items) for st in s.stores.values())
+        if hasattr(s, "store"):
+            return len(s.store.items)
+    except Exception:
+        pass
+    return -1
+
+
 def run_one(sc):
     from onl.sim import Environment
     from onl.packet import Packet
@@ -42,7 +59,7 @@ def run_one(sc):
     nf, nc = cfg["nf"], cfg["nc"]
     env = Environment()
     rec = netlib.Recorder(env)
-    base = {"id": 0, "f": 1, "sz": 0, "pis": 0, "tot": 0, "cnt": [0] * nf, "byt": [0] * nf, "cr": [0] * nc,
+    base = {"id": 0, "f": 1, "sz": 0, "pis": 0, "wt": -1, "tot": 0, "cnt": [0] * nf, "byt": [0] * nf, "cr": [0] * nc,
             "fk": 0, "v": 0, "x": 0, "y": 0, "type": ""}
     out = {"cfg": cfg, "incl": 0, "bind": sc.get("bind", ""), "ev": rec.ev}
     try:
@@ -62,6 +79,7 @@ def run_one(sc):
              "tot": ex(s.total_packets)}
         p = s.packet_in_service
         d["pis"] = p.packet_id if p is not None else 0
+        d["wt"] = waiting_total(s)
         if kind == "DRR":
             d["cr"] = [ex(s.deficit.get(c, -1)) for c in range(nc)]
         if k is not None:
@@ -72,9 +90,12 @@ def run_one(sc):
                 d["fk"] = ex(s.aux_vc.get(k, -1))
         return d
 
+    notify = [lambda: None]
+
     class Sink:
         def put(self, pkt):
             rec.ev.append(dict(base, e="D", t=ex(env.now), id=pkt.packet_id, f=pkt.flow_id + 1, sz=pkt.size, **state()))
+            notify[0]()
 
     s.out = Sink()
 
@@ -106,7 +127,7 @@ def run_one(sc):
         # Monitor starts its own process in __init__ and calls dist() on first resumption
         holder[0] = Monitor(env, s, dist, service_included=bool(mon["incl"]))
 
-    netlib.injector(env, rec, sc["arr"], make_packet, s, on_arrival)
+    notify[0] = netlib.injector(env, rec, sc["arr"], make_packet, s, on_arrival)
     ok = netlib.run_env(env, rec)
     for e in rec.ev:
         if e["e"] == "X":
